@@ -116,8 +116,34 @@ def c19_tasks(pid, tier, repo, seed, R):
     return tasks
 
 
+def c16_tasks(pid, tier, repo, seed, R):
+    tasks = def_tasks(pid, tier, repo, seed, R, ["_to_base", "_from_base"])
+    cl = concrete_classes(R)
+    pick = cl if tier == "thorough" else [c for c in cl if c in ("JSONDict", "JSONList", "MemoryBufferedJSONAttrDict", "BufferedJSONList")]
+    sweeps = [(f"{c}:aliasing", "replay/c16_replay.py", ["search", c],
+               "all container-taking/returning operations x 6 nested values; every container reachable from the "
+               "argument / result mutated afterwards") for c in pick]
+    tasks.append(dict(kind="bounded", repo=repo, seed=seed, props=[pid], sweeps=sweeps, threads=True, label=f"{pid}:bounded:aliasing"))
+    return tasks
+
+
+API_PROPS["C16"] = dict(methods="all", title="values are copied in and out")
 API_PROPS["C11"] = dict(methods="mutator", title="forbidden data never gets in")
+def c02_tasks(pid, tier, repo, seed, R):
+    tasks = def_tasks(pid, tier, repo, seed, R)
+    # SyncedList._update: loop invariant not written yet -> bounded stand-in (labelled bounded, not proved)
+    lists = [c for c in concrete_classes(R) if R["classes"][c]["kind"] == "list"]
+    sweeps = [(f"{c}._update@SyncedList._update", "replay/update_replay.py", ["search", c],
+               "all ordered pairs of 20 documents (value->null/scalar/other kind/same kind, shorter/longer lists); "
+               "every retained child handle") for c in (lists if tier == "thorough" else lists[:3])]
+    tasks.append(dict(kind="bounded", repo=repo, seed=seed, props=[pid], sweeps=sweeps, threads=True, label=f"{pid}:bounded:list-update"))
+    tasks.append(dict(kind="validators", repo=repo, seed=seed, what="lemma", props=[pid], threads=True, label=f"{pid}:lemma"))
+    return tasks
+
+
 EXTRA = {p: def_tasks for p in DEFS_FOR}
+EXTRA["C02"] = c02_tasks
+EXTRA["C16"] = c16_tasks
 EXTRA["C11"] = c11_tasks
 EXTRA["C12"] = value_tasks
 EXTRA["C08"] = c08_tasks
